@@ -15,6 +15,9 @@ def lemma(run):
     nob = tlc.tlaps("PolicyLemmaProof", deps=("KmipPolicy",))
     run.extra["tlaps_proof"] = {"module": "spec/tlaps/PolicyLemmaProof.tla", "theorem": "ImplAllowed => Granted (unbounded)",
                                 "obligations_proved": nob}
+    run.extra["obligations"] = nob
+    run.extra["discharged"] = nob
+    run.extra["checker_cmd"] = "tlapm --cleanfp PolicyLemmaProof.tla (spec/tlaps, with KmipPolicy.tla)"
 
 
 def check(run, tier):
